@@ -2,7 +2,9 @@
 '''Run EVERY check against every confirmed behaviour-preserving refactor under /verif/benign (scratch worktrees of /repo
 HEAD): any violation or analysis error is a false alarm of the checker.  Writes benign/RESULTS.json.
 
-usage: benign_check.py [ID-rK ...]
+usage: benign_check.py [--keep] [--prev] [ID-rK ...]
+   --keep   leave the patched copies under /tmp/bo/<name> (for --explain sessions)
+   --prev   run only the checks that alarmed in the recorded RESULTS.json (plus the refactor's own property)
 '''
 import glob
 import json
@@ -20,48 +22,49 @@ def sh(cmd, cwd='/', timeout=900):
 
 
 def run_one(args):
-    name, slot, props = args
-    d = f'{VERIF}/benign/{name}'
-    wt = f'/tmp/benchk/{slot}'
-    sh('git reset -q --hard; git checkout -q --detach $(git -C /repo rev-parse HEAD) && git reset -q --hard && git clean -fdq', wt)
-    rc, out = sh(f'git apply {d}/patch.diff', wt)
+    name, prop = args
+    wt = f'/tmp/bo/{name}'
+    rc, out = sh(f'{VERIF}/check {prop} --repo {wt} --no-evidence', VERIF)
     if rc != 0:
-        return name, {'error': 'patch does not apply: ' + out[-200:]}
-    res = {}
-    for p in props:
-        rc, out = sh(f'{VERIF}/check {p} --repo {wt} --no-evidence', VERIF)
-        if rc != 0:
-            res[p] = {'exit': rc, 'lines': [l for l in out.splitlines() if l.startswith('  rule ') or 'ANALYSIS-ERROR' in l][:4]}
-    sh('git reset -q --hard && git clean -fdq', wt)
-    return name, res
+        return name, prop, {'exit': rc, 'lines': [l for l in out.splitlines() if l.startswith('  rule ') or 'ANALYSIS-ERROR' in l][:4]}
+    return name, prop, None
 
 
 def main():
-    names = [a for a in sys.argv[1:]] or sorted(n for n in os.listdir(f'{VERIF}/benign') if os.path.exists(f'{VERIF}/benign/{n}/patch.diff'))
+    argv = sys.argv[1:]
+    keep = '--keep' in argv
+    prev_only = '--prev' in argv
+    argv = [a for a in argv if not a.startswith('--')]
+    names = argv or sorted(n for n in os.listdir(f'{VERIF}/benign') if os.path.exists(f'{VERIF}/benign/{n}/patch.diff'))
     props = sorted(os.path.basename(p)[:-3].upper() for p in glob.glob(f'{VERIF}/sa/rules/c[0-9][0-9].py'))
-    jobs = [(n, i % 12, props) for i, n in enumerate(names)]
-    by_slot = {}
-    for j in jobs:
-        by_slot.setdefault(j[1], []).append(j)
-    sh('git -C /repo worktree prune')
-    for s in by_slot:
-        wt = f'/tmp/benchk/{s}'
-        if not os.path.exists(wt):
-            rc, out = sh(f'git -C /repo worktree add -f --detach {wt} HEAD -q')
-            if rc != 0:
-                sys.exit('cannot create scratch worktree: ' + out)
-    with ThreadPoolExecutor(12) as ex:
-        results = dict(r for rs in ex.map(lambda js: [run_one(j) for j in js], by_slot.values()) for r in rs)
-    for s in range(12):
-        if os.path.exists(f'/tmp/benchk/{s}'):
-            sh(f'git -C /repo worktree remove --force /tmp/benchk/{s}')
+    path = f'{VERIF}/benign/RESULTS.json'
+    prev = json.load(open(path)) if os.path.exists(path) else {}
+    jobs = []
+    results = {}
+    for n in names:
+        wt = f'/tmp/bo/{n}'
+        sh(f'rm -rf {wt}; mkdir -p {wt} && git -C /repo archive HEAD | tar -x -C {wt}')
+        rc, out = sh(f'patch -p1 -s < {VERIF}/benign/{n}/patch.diff', wt)
+        if rc != 0:
+            results[n] = {'error': 'patch does not apply: ' + out[-200:]}
+            continue
+        results[n] = {}
+        ps = sorted(set(prev.get(n, {})) | {n.split('-')[0]}) if prev_only and n in prev else props
+        jobs += [(n, p) for p in ps if p != 'error']
+    with ThreadPoolExecutor(16) as ex:
+        for n, p, r in ex.map(run_one, jobs):
+            if r:
+                results[n][p] = r
+    if not keep:
+        for n in names:
+            sh(f'rm -rf /tmp/bo/{n}')
     noisy = 0
     for n in names:
         r = results[n]
         if r:
             noisy += 1
             print(f'{n:10s} FALSE ALARM')
-            for p, v in r.items():
+            for p, v in sorted(r.items()):
                 if p == 'error':
                     print('      ', v)
                 else:
@@ -69,8 +72,6 @@ def main():
         else:
             print(f'{n:10s} silent')
     print(f'{len(names)} refactors, {noisy} with a false alarm')
-    path = f'{VERIF}/benign/RESULTS.json'
-    prev = json.load(open(path)) if os.path.exists(path) else {}
     prev.update(results)
     json.dump(prev, open(path, 'w'), indent=1, sort_keys=True)
 
